@@ -92,6 +92,8 @@ pub struct Sim {
     pub vis: Vec<BTreeSet<usize>>,
     pub refs: Vec<Option<usize>>,
     pub parents: Vec<Option<usize>>,
+    /// per slot: the slot its `OwnedBy` points at
+    pub owners: Vec<Option<usize>>,
     /// parent as of the last replicated tick
     pub sent_parents: Vec<Option<usize>>,
     /// parent links some client may still believe in (since the last time every client applied everything)
@@ -146,6 +148,8 @@ pub struct Sim {
     /// largest single allocation request during the last `App::update` of the server (C06)
     pub last_update_max_alloc: usize,
     pub drain_logs: bool,
+    /// restrict the per-frame value oracle (C02) to these clients
+    pub values_only: Option<Vec<usize>>,
     /// last client-event sequence number seen by server logic per sender
     pub last_from: BTreeMap<Entity, u32>,
     /// (kind, seq, sender) of client events seen by server logic since last cleared (C06)
@@ -215,6 +219,7 @@ impl Sim {
             vis: vec![BTreeSet::new(); n],
             refs: vec![None; slots],
             parents: vec![None; slots],
+            owners: vec![None; slots],
             sent_parents: vec![None; slots],
             next_val: 1,
             snap_struct: vec![BTreeMap::new(); n],
@@ -256,6 +261,7 @@ impl Sim {
             converge_only: None,
             last_update_max_alloc: 0,
             drain_logs: false,
+            values_only: None,
             last_from: BTreeMap::new(),
             from_log: Vec::new(),
             need_first_tick: true,
@@ -456,6 +462,14 @@ impl Sim {
                 }
                 self.refs[s] = None;
             }
+            if self.owners[s] == Some(slot) {
+                if let Some(e) = self.slots[s] {
+                    if let Ok(mut em) = self.server.world_mut().get_entity_mut(e) {
+                        em.remove::<OwnedBy>();
+                    }
+                }
+                self.owners[s] = None;
+            }
         }
     }
 
@@ -470,6 +484,7 @@ impl Sim {
                     self.marked[s] = false;
                     self.refs[s] = None;
                     self.parents[s] = None;
+                    self.owners[s] = None;
                     self.locked[s] = false;
                     for v in &mut self.vis {
                         v.remove(&s);
@@ -517,7 +532,7 @@ impl Sim {
     /// F23 exclusion: a reference to `slot` was replaced by another value and the old value may still travel in (or wait
     /// in a client's buffer as) a mutate message. Also covers entities that would be despawned recursively with `slot`.
     fn old_reference_may_be_in_flight(&self, slot: usize) -> bool {
-        if self.cfg.no_exclusions || !self.cfg.refs {
+        if self.cfg.no_exclusions || !(self.cfg.refs || self.cfg.owners) {
             return false;
         }
         let mut dying: BTreeSet<usize> = [slot].into();
@@ -724,6 +739,7 @@ impl Sim {
                 self.marked[slot] = false;
                 self.refs[slot] = None;
                 self.parents[slot] = None;
+                self.owners[slot] = None;
                 for v in &mut self.vis {
                     v.remove(&slot);
                 }
@@ -943,6 +959,47 @@ impl Sim {
                 self.parents[slot] = None;
                 self.op();
             }
+            Step::SetOwner { slot, owner } => {
+                if !self.cfg.owners || slot >= nslots || owner >= nslots || owner == slot {
+                    return;
+                }
+                let (Some(e), Some(o)) = (self.slots[slot], self.slots[owner]) else { return };
+                if !self.marked[owner] {
+                    return;
+                }
+                if self.cfg.vis != 0 && !self.cfg.children_any_vis && (0..nclients).any(|c| self.clients[c].connected && self.visible_to(c, slot) && !self.visible_to(c, owner)) {
+                    return self.exclude("reference_to_entity_hidden_from_a_viewer");
+                }
+                if self.cfg.periodic && self.entity_has_p(slot) && !self.cfg.no_exclusions {
+                    return self.exclude("F4_other_change_on_entity_with_periodic_component");
+                }
+                if let Some(old) = self.owners[slot] {
+                    if old != owner {
+                        // a replaced reference travels as a mutation (finding F23)
+                        self.ref_replaced_at[old] = Some(self.clock);
+                        self.flags.insert("owner_replaced");
+                    }
+                }
+                self.server.world_mut().entity_mut(e).insert(OwnedBy(o));
+                self.owners[slot] = Some(owner);
+                self.flags.insert("second_relationship");
+                self.op();
+            }
+            Step::DelOwner { slot } => {
+                if slot >= nslots {
+                    return;
+                }
+                let Some(e) = self.slots[slot] else { return };
+                if self.owners[slot].is_none() {
+                    return;
+                }
+                if self.cfg.periodic && self.entity_has_p(slot) && !self.cfg.no_exclusions {
+                    return self.exclude("F4_other_change_on_entity_with_periodic_component");
+                }
+                self.server.world_mut().entity_mut(e).remove::<OwnedBy>();
+                self.owners[slot] = None;
+                self.op();
+            }
             Step::PreSpawn { client, slot, kill, gap, early, refer } => {
                 if !self.cfg.prespawn || client >= nclients || slot >= nslots || !self.clients[client].connected {
                     return;
@@ -1025,10 +1082,10 @@ impl Sim {
                 if !visible && self.old_reference_may_be_in_flight(slot) {
                     return self.exclude("F23_despawn_while_a_replaced_reference_to_it_may_still_be_in_flight");
                 }
-                if self.cfg.refs {
+                if self.cfg.refs || (self.cfg.owners && !self.cfg.children_any_vis) {
                     // keep "target visible to whoever sees the referrer" true
-                    let hides_target = !visible && (0..nslots).any(|r| self.refs[r] == Some(slot) && self.slots[r].is_some() && self.visible_to(client, r));
-                    let shows_referrer = visible && self.refs[slot].is_some_and(|t| !self.visible_to(client, t));
+                    let hides_target = !visible && (0..nslots).any(|r| (self.refs[r] == Some(slot) || self.owners[r] == Some(slot)) && self.slots[r].is_some() && self.visible_to(client, r));
+                    let shows_referrer = visible && (self.refs[slot].is_some_and(|t| !self.visible_to(client, t)) || self.owners[slot].is_some_and(|t| !self.visible_to(client, t)));
                     if hides_target || shows_referrer {
                         return self.exclude("reference_to_entity_hidden_from_a_viewer");
                     }
@@ -1736,6 +1793,9 @@ impl Sim {
         }
         if let Some(c) = w.get::<ChildOf>(e) {
             m.insert("ChildOf", map(c.0));
+        }
+        if let Some(c) = w.get::<OwnedBy>(e) {
+            m.insert("OwnedBy", map(c.0));
         }
         m
     }
